@@ -218,6 +218,11 @@ func c13apply(ops []c13op) (clause, key, msg string) {
 		case "setLast":
 			st.SetLastHash(hashN(o.a))
 			m.last = hashN(o.a)
+		case "reset":
+			// what Node.Run does before every reconnect: every request is forgotten, nothing is
+			// buffered any more
+			st.Reset()
+			m.clearAll()
 		}
 		// state comparison
 		req := st.VerifRequested()
@@ -318,6 +323,9 @@ func c13genOp(c *Ctx, universe int, nextFresh *int) c13op {
 	default:
 		if t.Bool(1, 3) {
 			return c13op{kind: "setLast", a: t.Range(0, *nextFresh)}
+		}
+		if t.Bool(1, 4) {
+			return c13op{kind: "reset"}
 		}
 		return c13op{kind: "next"}
 	}
